@@ -22,6 +22,9 @@ use crate::spec::{self, fe, pf};
 pub struct Reg {
     pub f: [u64; 4], // gpa, size, ua, off
     pub kind: FdKind,
+    /// in a memory table: backed by the same descriptor as the previous region (one file split into several regions)
+    #[serde(default)]
+    pub share: bool,
 }
 
 #[derive(Serialize, Deserialize, Debug, Clone, Hash, PartialEq, Eq)]
@@ -269,15 +272,31 @@ pub struct Lent {
     pub owned: Vec<OwnedFd>,
     pub eventfd: Option<EventFd>,
     pub ids: Vec<FileId>,
+    /// memory table: region i is passed the descriptor owned[alias[i]] (regions may share one descriptor)
+    pub alias: Vec<usize>,
+}
+
+impl Lent {
+    /// identities of the descriptors as they must appear on the wire / at the handler, in order (regions of a memory
+    /// table may share a descriptor; `ids` stays the identity of each owned descriptor)
+    pub fn wire_ids(&self) -> Vec<FileId> {
+        let mut v = self.ids.clone();
+        for i in 0..self.alias.len().min(v.len()) {
+            v[i] = self.ids[self.alias[i]];
+        }
+        v
+    }
 }
 
 pub fn make_lent(op: &FeOp) -> Lent {
+    let mut alias: Vec<usize> = Vec::new();
     let mut owned = Vec::new();
     let mut eventfd = None;
     match op {
         FeOp::SetMemTable(rs) => {
-            for r in rs {
+            for (i, r) in rs.iter().enumerate() {
                 owned.push(make_fd(r.kind));
+                alias.push(if r.share && i > 0 { alias[i - 1] } else { i });
             }
         }
         FeOp::AddMemRegion(r) => owned.push(make_fd(r.kind)),
@@ -295,7 +314,7 @@ pub fn make_lent(op: &FeOp) -> Lent {
     if let Some(e) = &eventfd {
         ids.extend(file_id(e.as_raw_fd()));
     }
-    Lent { owned, eventfd, ids }
+    Lent { owned, eventfd, ids, alias }
 }
 
 /// canonical rendering of a call's successful result
@@ -317,7 +336,7 @@ fn fid(f: &File) -> Option<FileId> {
 /// perform the call; `lent` supplies descriptors (SetDeviceStateFd consumes its OwnedFd)
 pub fn perform(f: &mut Frontend, op: &FeOp, lent: &mut Lent) -> Result<Ret, String> {
     let e = |e: vhost::Error| format!("{e:?}");
-    let raw = |i: usize, l: &Lent| -> RawFd { l.owned.get(i).map(|f| f.as_raw_fd()).unwrap_or(-1) };
+    let raw = |i: usize, l: &Lent| -> RawFd { l.owned.get(l.alias.get(i).copied().unwrap_or(i)).map(|f| f.as_raw_fd()).unwrap_or(-1) };
     let info = |r: &Reg, fd: RawFd| VhostUserMemoryRegionInfo::new(r.f[0], r.f[1], r.f[2], r.f[3], fd);
     match op {
         FeOp::GetFeatures => f.get_features().map(Ret::U64).map_err(e),
@@ -485,7 +504,7 @@ pub fn reply_for(op: &FeOp, st: &FeState, rv: &ReplyVals) -> Option<(Vec<u8>, us
 
 pub fn reg_strategy() -> impl Strategy<Value = Reg> {
     (valid_region(), prop_oneof![4 => Just(FdKind::Memfd), 1 => Just(FdKind::Eventfd), 1 => Just(FdKind::Pipe), 1 => Just(FdKind::Socket), 1 => Just(FdKind::DevNull)])
-        .prop_map(|(f, kind)| Reg { f, kind })
+        .prop_map(|(f, kind)| Reg { f, kind, share: false })
 }
 
 /// regions including zero-sized ones (must be rejected locally)
@@ -519,7 +538,17 @@ pub fn op_strategy() -> BoxedStrategy<FeOp> {
         prop_oneof![Just(spec::VIRTIO_F_PROTOCOL_FEATURES | 0x1_0000_0000u64), Just(0x1_0000_0000u64)].prop_map(FeOp::SetFeatures).boxed(),
         Just(FeOp::SetOwner).boxed(),
         Just(FeOp::ResetOwner).boxed(),
-        prop_oneof![4 => proptest::collection::vec(reg_any(), 1..=4), 1 => proptest::collection::vec(reg_strategy(), 30..=33), 1 => Just(vec![])].prop_map(FeOp::SetMemTable).boxed(),
+        (prop_oneof![4 => proptest::collection::vec(reg_any(), 1..=4), 1 => proptest::collection::vec(reg_strategy(), 30..=33), 1 => Just(vec![])], any::<u32>())
+            .prop_map(|(mut v, m)| {
+                // in a third of the tables neighbouring regions share one descriptor (one file split into several regions)
+                if m % 3 == 0 {
+                    for (i, r) in v.iter_mut().enumerate() {
+                        r.share = i > 0 && (m >> (8 + i % 24)) & 1 == 1;
+                    }
+                }
+                FeOp::SetMemTable(v)
+            })
+            .boxed(),
         (lat64(), prop_oneof![1 => Just(None), 2 => (lat64(), lat64()).prop_map(|(s, o)| {
             let s = s.max(1);
             Some((s, if (o as u128 + s as u128) < (1u128 << 64) { o } else { u64::MAX - s }))
